@@ -49,11 +49,12 @@ type DCfg struct {
 	NDTC     bool     `json:"ndtc"`
 	Subs     []string `json:"subs"`
 	Comp     bool     `json:"comp"`
-	Tmo      string   `json:"tmo"` // none | ht | ctx | both
+	Tmo      string   `json:"tmo"` // none | ht | ctx | bothe (both, context deadline earlier) | bothl (both, HandshakeTimeout earlier)
 	Jar      bool     `json:"jar"`
 	Loop     bool     `json:"loop"`     // no hooks: real loopback listener
 	LoopPort int      `json:"loopport"` // port of that listener
 	NoTLSCfg bool     `json:"notlscfg"` // leave Dialer.TLSClientConfig nil
+	RBuf     int      `json:"rbuf"`     // Dialer.ReadBufferSize
 }
 
 // DDial is one DialContext call.
@@ -82,6 +83,13 @@ type DProg struct {
 	CutHead int             `json:"cuthead"`
 	CutTail int             `json:"cuttail"`
 	CutStep int             `json:"cutstep"`
+	// AllSplit: one run per split offset of the last dial's reply (header block +
+	// body + glued frames handed to the transport in two segments cut at that
+	// offset); "3" adds three-segment variants around and after the end of the
+	// header block.  SplitStep > 1 thins the offsets inside the header block
+	// (the last 8 header bytes and every offset behind them are always taken).
+	AllSplit  string `json:"allsplit"`
+	SplitStep int    `json:"splitstep"`
 	TmoMs   int             `json:"tmoms"`   // timeout used when no stall is planned
 	StallMs int             `json:"stallms"` // timeout used when a stall (timeout fault) is planned
 	Seed    uint64          `json:"seed"`
@@ -179,6 +187,37 @@ func RunDial(p *DProg) []Ev {
 			Ev{"e": "Cuts", "n": total, "ok": okc, "fail": failc, "len": n})
 		return evs
 	}
+	if p.AllSplit != "" {
+		evs, _, _, pr := runDialOnceInfo(p, p.ID+"/dry", nil)
+		total, hdr := pr.replyLen, pr.replyHdr
+		step := p.SplitStep
+		if step <= 0 {
+			step = 1
+		}
+		one := func(tag string, segs []int) {
+			q := *p
+			q.Dials = append([]DDial{}, p.Dials...)
+			q.Dials[last].Reply.Segs = segs
+			q.Dials[last].Reply.SegAbs = true
+			e, _, _ := runDialOnce(&q, p.ID+"/"+tag, nil)
+			evs = append(evs, e...)
+		}
+		for k := 1; k < total; k++ {
+			if k < hdr-8 && k > 2 && k%step != 0 {
+				continue
+			}
+			one(fmt.Sprintf("s%d", k), []int{k})
+			if p.AllSplit == "3" && k >= hdr-4 {
+				if k+1 < total {
+					one(fmt.Sprintf("s%d.%d", k, k+1), []int{k, k + 1})
+				}
+				if k > hdr {
+					one(fmt.Sprintf("s%d.%d", hdr, k), []int{hdr, k})
+				}
+			}
+		}
+		return evs
+	}
 	evs, _, _ := runDialOnce(p, p.ID, nil)
 	return evs
 }
@@ -226,6 +265,8 @@ type progRun struct {
 	tlsCfg  *tls.Config
 	dialer  *websocket.Dialer
 	cur     *dialCtx
+	// facts about the scripted reply of the last dial (for the AllSplit expansion)
+	replyLen, replyHdr int
 }
 
 // dialCtx is what the hooks of the shared Dialer consult for the dial in progress.
@@ -237,19 +278,25 @@ type dialCtx struct {
 	ctxDL time.Time
 	useHT bool
 	fed   int
+	plook int
 }
 
 // runDialOnce runs the whole history once; override (if non-nil) replaces the
 // fault of the last dial.  Returns the events, and the number and kinds of
 // transport operations of the last dial.
 func runDialOnce(p *DProg, tid string, override *DFault) ([]Ev, int, []string) {
+	evs, nops, kinds, _ := runDialOnceInfo(p, tid, override)
+	return evs, nops, kinds
+}
+
+func runDialOnceInfo(p *DProg, tid string, override *DFault) ([]Ev, int, []string, *progRun) {
 	pr := &progRun{p: p, keys: &keyTable{}}
 	if p.Cfg.Loop {
 		// cells without an applicable dial hook: a real loopback listener; its
 		// port replaces the placeholder @PORT@ in the URLs and in the echoed inputs
 		ln, err := net.Listen("tcp", "127.0.0.1:0")
 		if err != nil {
-			return []Ev{{"e": "Reset", "tid": tid, "cfg": p.CfgAbs}, {"e": "SETUPFAIL", "v": err.Error()}}, 0, nil
+			return []Ev{{"e": "Reset", "tid": tid, "cfg": p.CfgAbs}, {"e": "SETUPFAIL", "v": err.Error()}}, 0, nil, pr
 		}
 		defer ln.Close()
 		port := fmt.Sprint(ln.Addr().(*net.TCPAddr).Port)
@@ -290,7 +337,7 @@ func runDialOnce(p *DProg, tid string, override *DFault) ([]Ev, int, []string) {
 	if !cfg.NoTLSCfg {
 		pr.tlsCfg = &tls.Config{RootCAs: caGood.pool}
 	}
-	d := &websocket.Dialer{Subprotocols: cfg.Subs, EnableCompression: cfg.Comp, TLSClientConfig: pr.tlsCfg}
+	d := &websocket.Dialer{Subprotocols: cfg.Subs, EnableCompression: cfg.Comp, TLSClientConfig: pr.tlsCfg, ReadBufferSize: cfg.RBuf}
 	pr.dialer = d
 	if cfg.Jar {
 		d.Jar, _ = cookiejar.New(nil)
@@ -307,7 +354,16 @@ func runDialOnce(p *DProg, tid string, override *DFault) ([]Ev, int, []string) {
 				pu.User = url.User(cfg.PUser)
 			}
 		}
-		d.Proxy = http.ProxyURL(pu)
+		fixed := http.ProxyURL(pu)
+		d.Proxy = func(r *http.Request) (*url.URL, error) {
+			// fact: the Dialer consulted its Proxy function (counted per dial)
+			if dc := pr.cur; dc != nil {
+				dc.run.mu.Lock()
+				dc.plook++
+				dc.run.mu.Unlock()
+			}
+			return fixed(r)
+		}
 	}
 	hook := func(name string) func(network, addr string) (net.Conn, error) {
 		return func(network, addr string) (net.Conn, error) {
@@ -362,7 +418,7 @@ func runDialOnce(p *DProg, tid string, override *DFault) ([]Ev, int, []string) {
 			break
 		}
 	}
-	return evs, nops, kinds
+	return evs, nops, kinds, pr
 }
 
 // fedConn counts the bytes handed to the library (allocation monitor).
@@ -412,6 +468,11 @@ func (pr *progRun) doDial(i int, d *DDial) (evs []Ev, nops int, kinds []string, 
 	if d.Reply.BLen > 0 {
 		pc.body = wire.TextPay(p.Seed, 4242+i, d.Reply.BLen)
 	}
+	var tailTypes []int
+	var tailMsgs [][]byte
+	if len(d.Reply.TailFr) > 0 {
+		pc.tail, tailTypes, tailMsgs = tailStream(p.Seed, i, d.Reply.TailFr)
+	}
 	tmoMs := p.TmoMs
 	if tmoMs == 0 {
 		tmoMs = 30000
@@ -437,15 +498,19 @@ func (pr *progRun) doDial(i int, d *DDial) (evs []Ev, nops int, kinds []string, 
 		dl := time.Now().Add(dc.tmo)
 		ctx, cancel = context.WithDeadline(ctx, dl)
 		run.bound, run.hasBnd = dl, true
-	case "both":
-		// the context deadline is the later one for even seeds, the earlier one otherwise
-		pr.dialer.HandshakeTimeout = dc.tmo
-		dc.useHT = true
-		f := 2 * dc.tmo
-		if (p.Seed+uint64(i))%2 == 1 {
-			f = dc.tmo / 2
+	case "both", "bothe", "bothl":
+		// Both configured; the earlier of the two is always dc.tmo away, the later
+		// one four times as far.  bothe: the context deadline is the earlier one;
+		// bothl: the HandshakeTimeout; "both" (older programs): by seed parity.
+		ctxEarlier := cfg.Tmo == "bothe" || (cfg.Tmo == "both" && (p.Seed+uint64(i))%2 == 1)
+		ht, cd := dc.tmo, 4*dc.tmo
+		if ctxEarlier {
+			ht, cd = 4*dc.tmo, dc.tmo
 		}
-		dl := time.Now().Add(f)
+		pr.dialer.HandshakeTimeout = ht
+		dc.useHT = true
+		dc.tmo = ht // the hooks bound the run by hook time + HandshakeTimeout as well
+		dl := time.Now().Add(cd)
 		ctx, cancel = context.WithDeadline(ctx, dl)
 		run.bound, run.hasBnd = dl, true
 	}
@@ -538,6 +603,45 @@ func (pr *progRun) doDial(i int, d *DDial) (evs []Ev, nops int, kinds []string, 
 		closed = append(closed, w.nclose)
 		w.mu.Unlock()
 	}
+	// C17, client side: the frames glued to the reply are read back through the
+	// public API after DialContext has returned (facts: result, type, length and
+	// which of the sent messages the delivered bytes are equal to).
+	rx := []Ev{}
+	rxHang := false
+	if r.conn != nil && len(d.Reply.TailFr) > 0 && !hang && r.pan == nil {
+		rdone := make(chan interface{}, 1)
+		var out []Ev
+		go func() {
+			defer func() { rdone <- recover() }()
+			for n := 0; n < len(tailMsgs)+2; n++ {
+				t, b, err := r.conn.ReadMessage()
+				eq := []int{}
+				for j, m := range tailMsgs {
+					if tailTypes[j] == t && string(m) == string(b) {
+						eq = append(eq, j+1)
+					}
+				}
+				e := Ev{"ok": err == nil, "type": t, "n": len(b), "eq": eq, "err": ""}
+				if err != nil {
+					e["type"], e["err"] = 0, truncate(err.Error(), 80)
+				}
+				out = append(out, e)
+				if err != nil {
+					break
+				}
+			}
+		}()
+		select {
+		case v := <-rdone:
+			if v != nil {
+				r.pan = v
+			}
+			rx = out
+		case <-time.After(Watchdog(20 * time.Second)):
+			NoteHang()
+			rxHang = true
+		}
+	}
 	// tear down (harness' own cleanup, not logged)
 	for _, w := range conns {
 		w.under.Close()
@@ -562,15 +666,19 @@ func (pr *progRun) doDial(i int, d *DDial) (evs []Ev, nops int, kinds []string, 
 		hooks = append([]Ev{}, run.hooks...)
 	}
 	pr.prevKey = run.prevKey
+	pr.replyLen, pr.replyHdr = run.replyLen, run.replyHdr
+	nsegs := run.nsegs
+	plook := dc.plook
 	run.mu.Unlock()
 
 	if r.pan != nil {
 		return []Ev{{"e": "PANIC", "v": truncate(fmt.Sprint(r.pan), 200), "i": i, "url": d.URL}}, nops, kinds, true
 	}
-	if hang {
-		return []Ev{{"e": "HANG", "i": i}}, nops, kinds, true
+	if hang || rxHang {
+		return []Ev{{"e": "HANG", "i": i, "reading": rxHang}}, nops, kinds, true
 	}
-	evs = append(evs, Ev{"e": "Dial", "i": i + 1, "d": d.Abs, "short": stalling, "hooks": hooks, "ops": ops, "closed": closed, "peer": layers, "res": res})
+	evs = append(evs, Ev{"e": "Dial", "i": i + 1, "d": d.Abs, "short": stalling, "hooks": hooks, "ops": ops, "closed": closed, "peer": layers, "res": res,
+		"rx": rx, "plook": plook, "nsegs": nsegs})
 	if delta > 8*uint64(fed)+(6<<20) {
 		evs = append(evs, Ev{"e": "ALLOC", "delta": delta, "fed": fed})
 	}
